@@ -130,6 +130,13 @@ authorize_v4(struct bpf_sock_addr *ctx)
         }
         ctx->user_port = policy->destination_port;
     }
+    else
+    {
+        // Not a destination to redirect: forget the entry an earlier connect of this thread may have left in the local map
+        // (a connect that failed after this hook and before tcp_connect), otherwise tcp_connect would audit this connect with it.
+        __u64 pid_tgid = bpf_get_current_pid_tgid();
+        bpf_map_delete_elem(&local_map, &pid_tgid);
+    }
 
     return BPF_SOCK_ADDR_VERDICT_PROCEED;
 }
